@@ -817,11 +817,17 @@ def run_sink_scenario(args):
             shutil.rmtree(d, ignore_errors=True)
             os.makedirs(d)
             ramses_pack.materialise(cfg, base["lay"], d)
-            for sel in (["sink"], None):
+            for sel in (["sink"], None, "sorted"):
                 detail = None
                 try:
                     with contextlib.redirect_stdout(io.StringIO()):
-                        ds = osyris.RamsesDataset(cfg["nout"], path=d).load(select=sel)
+                        if sel == "sorted":
+                            # a sort key for the sink table, whatever the table holds (a loop over outputs, the early ones without sinks)
+                            if vname == "csv":
+                                continue
+                            ds = osyris.RamsesDataset(cfg["nout"], path=d).load(sortby={"sink": sc["exp"]["cols"][0]["name"]})
+                        else:
+                            ds = osyris.RamsesDataset(cfg["nout"], path=d).load(select=sel)
                     if vname == "csv":
                         detail = check_sink(cfg, sc, ds)
                     elif vname == "header-only":
